@@ -18,7 +18,7 @@ impl Group for E2eGroup {
     fn fixed(&self, _tier: &str) -> Vec<Case> {
         let l = |s: &str| Case { lines: vec![s.to_string()] };
         let all = vec![
-            l("e2e echo socks_ip 5000 2"), l("e2e echo socks_domain 100 1"), l("e2e echo direct 70000 3"), l("e2e echo http 20000 4"), l("e2e echo socks_ip 8192 5"), l("e2e echo http 8193 6"), l("e2e echo socks_ip6 3000 1"),
+            l("e2e echo socks_ip 5000 2"), l("e2e echo socks_domain 100 1"), l("e2e echo direct 70000 3"), l("e2e echo http 20000 4"), l("e2e echo socks_ip 8192 5"), l("e2e echo http 8193 6"), l("e2e echo socks_ip6 3000 1"), l("e2e echo socks_magic 3000 1"),
             l("e2e halfclose socks 1000"), l("e2e halfclose direct 10"), l("e2e targetclose socks 2000"),
             l("e2e refused socks"), l("e2e reuse 6"), l("e2e reaper"),
             l("e2e badpreamble bitflip"), l("e2e badpreamble random"), l("e2e badpreamble truncated"), l("e2e badpreamble good"),
@@ -32,7 +32,7 @@ impl Group for E2eGroup {
 
     fn generate(&self, rng: &mut Rng, _tier: &str, _idx: u64) -> Case {
         let line = match rng.below(12) {
-            0..=2 => format!("e2e echo {} {} {}", rng.pick(&["socks_ip", "socks_domain", "direct", "http", "socks_ip6"]), rng.pick(&[1usize, 100, 4096, 8191, 8192, 8193, 16384, 65535, 65536, 200000, 1000000]), rng.range(1, 9)),
+            0..=2 => format!("e2e echo {} {} {}", rng.pick(&["socks_ip", "socks_domain", "direct", "http", "socks_ip6", "socks_magic"]), rng.pick(&[1usize, 100, 4096, 8191, 8192, 8193, 16384, 65535, 65536, 200000, 1000000]), rng.range(1, 9)),
             3 => format!("e2e halfclose {} {}", rng.pick(&["socks", "direct"]), rng.pick(&[0usize, 1, 5000, 200000])),
             4 => format!("e2e targetclose socks {}", rng.pick(&[0usize, 1, 5000, 200000])),
             5 => format!("e2e reuse {}", rng.range(2, 12)),
@@ -49,7 +49,7 @@ impl Group for E2eGroup {
             let names: Vec<&str> = only.split(',').collect();
             let first = rng.pick(&names).to_string();
             let alt = match first.as_str() {
-                "echo" => format!("e2e echo {} {} {}", rng.pick(&["socks_ip", "socks_domain", "direct", "http", "socks_ip6"]), rng.pick(&[1usize, 100, 4096, 8191, 8192, 8193, 16384, 65535, 65536, 200000, 1000000]), rng.range(1, 9)),
+                "echo" => format!("e2e echo {} {} {}", rng.pick(&["socks_ip", "socks_domain", "direct", "http", "socks_ip6", "socks_magic"]), rng.pick(&[1usize, 100, 4096, 8191, 8192, 8193, 16384, 65535, 65536, 200000, 1000000]), rng.range(1, 9)),
                 "halfclose" => format!("e2e halfclose {} {}", rng.pick(&["socks", "direct"]), rng.pick(&[0usize, 1, 5000, 200000])),
                 "targetclose" => format!("e2e targetclose socks {}", rng.pick(&[0usize, 1, 5000, 200000])),
                 "reuse" => format!("e2e reuse {}", rng.range(2, 12)),
@@ -148,9 +148,13 @@ async fn echo(via: &str, n: usize, k: u8) -> Res {
     let data = pattern(n, k);
     let got: Vec<u8>;
     match via {
-        "socks_ip" | "socks_domain" | "socks_ip6" => {
+        "socks_ip" | "socks_domain" | "socks_ip6" | "socks_magic" => {
             let ipb: Vec<u8> = if v6 { std::net::Ipv6Addr::LOCALHOST.octets().to_vec() } else { ip.split('.').map(|x| x.parse::<u8>().unwrap()).collect() };
-            let r = if via == "socks_ip" { socks_connect(w.socks.unwrap(), 1, &ipb, target.addr.port()).await } else if v6 { socks_connect(w.socks.unwrap(), 4, &ipb, target.addr.port()).await } else { socks_connect(w.socks.unwrap(), 3, ip.as_bytes(), target.addr.port()).await };
+            // socks_magic: an ordinary host name that merely contains the name the protocol reserves for UDP-over-TCP streams
+            // (the server's resolver is seeded with it; it must be dialled like any other name)
+            let magic = "my-udp-over-tcp.arpa.example.test";
+            if via == "socks_magic" { anytls_rs::util::dns_cache::verif_dns::seed(magic, vec![target.addr]).await; }
+            let r = if via == "socks_ip" { socks_connect(w.socks.unwrap(), 1, &ipb, target.addr.port()).await } else if v6 { socks_connect(w.socks.unwrap(), 4, &ipb, target.addr.port()).await } else if via == "socks_magic" { socks_connect(w.socks.unwrap(), 3, magic.as_bytes(), target.addr.port()).await } else { socks_connect(w.socks.unwrap(), 3, ip.as_bytes(), target.addr.port()).await };
             let mut s = match r {
                 Ok(s) => s,
                 Err(e) if e.starts_with("reply ") => {
